@@ -224,6 +224,7 @@ func corrIdm(seed uint64, tier string, replay []string) *lib.Result {
 		return res
 	}
 	seen := map[string]bool{}
+	shrinks := 0
 	for k, h := range hs {
 		impl := idmImpl(h)
 		for i, l := range h {
@@ -235,6 +236,9 @@ func corrIdm(seed uint64, tier string, replay []string) *lib.Result {
 			st.Sample(map[string]any{"history": h[:min(len(h), 8)], "impl": impl[:min(len(h), 8)]})
 		}
 		if d := lib.FirstDiff(impl, model[k]); d >= 0 {
+			if shrinks++; shrinks > 40 {
+				break // enough representatives: every further disagreeing history would be minimised at the cost of many driver runs
+			}
 			cut := h[:d+1]
 			small := lib.Shrink(cut, 1, func(c lib.History) bool { return lib.FirstDiff(idmImpl(c), lib.ModelExec(c)) >= 0 })
 			si, sm := idmImpl(small), lib.ModelExec(small)
